@@ -14,7 +14,7 @@ from .. import storeworld as SW
 from .. import tsparse
 from ..core import Violation, call
 
-KINDS = [('sdo', 8), ('sco', 2), ('marking', 1), ('custom', 2)]
+KINDS = [('sdo', 8), ('sco', 2), ('marking', 1), ('custom', 2), ('cobs', 1)]
 SCALAR_STR = ['type', 'id', 'name', 'description', 'created_by_ref', 'relationship_type', 'source_ref', 'target_ref']
 TS = ['created', 'modified']
 INT = ['confidence', 'x_info.level']
